@@ -19,7 +19,7 @@ CORPUS = [
 
 def gen(ctx):
     rng = ctx.rng
-    scheds = list(CORPUS)
+    scheds = list(CORPUS) + L.binary_reply_schedules()
     n = 150 if ctx.tier == "quick" else 3000
     for _ in range(n):
         labels, info, nreq = L.gen_session(rng, rng.choice([5, 15, 40, 80]), pauses=True)
